@@ -884,7 +884,36 @@ pub fn family(out: &mut Out, family: &str, tier: &Tier, rng: &mut Rng) {
                 c.invocations = 1 + rng.below(4);
                 c
             }
-            "twice" => { let d = rng.below(3); let g = gen_committed(rng, d); let mut c = mk(token_text(rng, 9, &[',', ';', '[', ']', '(', ')']), rng, g); c.sink = i % 2 == 0; c.nctx = if rng.chance(1, 3) { 1 + rng.below(2) } else { 0 }; c }
+            "twice" => { let d = rng.below(3); let g = gen_committed(rng, d); let mut c = mk(token_text(rng, 9, &[',', ';', '[', ']', '(', ')']), rng, g); c.sink = i % 2 == 0; c.nctx = if rng.chance(1, 3) { 1 + rng.below(4) } else { 0 }; c }
+            "scoped" if i % 8 == 7 => {
+                // a list whose item can succeed on nothing (so the optional trailing item after a
+                // trailing separator SUCCEEDS at the abort token), followed by siblings that need
+                // the context intact: probes and a recovering parser
+                let item = match rng.below(3) {
+                    0 => G::Maybe(Box::new(G::One(0))),
+                    1 => G::SeqCount(vec![0]),
+                    _ => G::List(rng.below(4) as u8, 0, None, Box::new(G::One(0)), 5, vec![4, 9]),
+                };
+                let list = G::List(rng.below(4) as u8, 0, None, Box::new(item), 4, vec![9]);
+                let after = match rng.below(3) {
+                    0 => G::Both(Box::new(G::Probe(9)), Box::new(G::Recover(1, Box::new(G::One(1)), Rec::Before(5)))),
+                    1 => G::Both(Box::new(G::Maybe(Box::new(G::One(9)))), Box::new(G::Probe(9))),
+                    _ => G::Probe(9),
+                };
+                let g = G::Both(Box::new(G::Probe(0)), Box::new(G::Both(Box::new(list), Box::new(after))));
+                let mut c = mk(String::new(), rng, g);
+                let n = 1 + rng.below(3);
+                let mut text = String::new();
+                for k in 0..n {
+                    if k > 0 { text.push_str(*rng.pick(&[",", " , ", ", "])); }
+                    text.push_str(*rng.pick(&["a", "a", "", "a;a"]));
+                }
+                text.push_str(*rng.pick(&[",", " ,", ", ", ""]));
+                text.push_str(*rng.pick(&["]", "] d", "]b;", "", " ]"]));
+                c.text = text; c.le = LineEnding::Lf; c.tab = 4; c.filter = Some(1);
+                c.sink = rng.chance(3, 4); c.nctx = rng.below(3);
+                c
+            }
             "scoped" => { let g = gen_scoped(rng); let mut c = mk(token_text(rng, 8, &[';', ',']), rng, g); c.sink = rng.chance(3, 4); c.nctx = rng.below(4); c }
             "ctxops" => {
                 let mut t = 0;
